@@ -934,6 +934,98 @@ pub fn lane_bytes(seed: u64) -> Vec<Scenario> {
 }
 
 /// the early-exit / unread stdin family (finding J): `exit 3` followed by more script text
+/// megabytes, on one stream or on both at once, in units whose length is coprime to every
+/// buffer size, so that CR LF pairs / multi-byte sequences straddle all block boundaries
+pub fn lane_big(seed: u64) -> Vec<Scenario> {
+    let mut out = vec![];
+    let mut g = G::new(seed ^ 0xb166);
+    let units: Vec<(&str, Vec<u8>)> = vec![
+        ("crlf11", b"line-xyz-\r\n".to_vec()),
+        ("lf7", b"abcdef\n".to_vec()),
+        ("utf8", "ü漢字-☃\n".as_bytes().to_vec()),
+        ("crcrlf", b"x\r\r\ny\r".to_vec()),
+        ("no-newline", b"0123456789abc".to_vec()),
+        ("sgr", b"\x1b[31mred\x1b[0m plain\n".to_vec()),
+    ];
+    for script in [false, true] {
+        for (uname, unit) in &units {
+            for (sname, total) in [("5k", 5_000usize), ("70k", 70_000), ("300k", 300_000), ("1m", 1_100_000)] {
+                for both in [false, true] {
+                    let mut sim = base_sim(g.rng.next_u64());
+                    sim.swarm = swarm(&mut g);
+                    sim.swarm.stall_per_mille = 0;
+                    if total > 200_000 {
+                        sim.swarm.chunk_max = sim.swarm.chunk_max.max(512);
+                    }
+                    let nonce = g.nonce();
+                    let times = (total / unit.len()) as u64;
+                    let mut ops = vec![];
+                    if both {
+                        // alternate between the descriptors in ten rounds
+                        for r in 0..10u64 {
+                            ops.push(Op::OutRepeat { fd: 1 + (r % 2) as u8, unit: Bytes(unit.clone()), times: times / 10 });
+                        }
+                    } else {
+                        ops.push(Op::OutRepeat { fd: 1, unit: Bytes(unit.clone()), times });
+                        ops.push(Op::Out { fd: 2, data: "tail-on-stderr".into() });
+                    }
+                    ops.push(Op::Status { code: 3 });
+                    sim.programs.insert(nonce.clone(), ops);
+                    let strip = *uname == "sgr" && !script;
+                    let keep = g.below(3) == 0;
+                    let t = Test {
+                        title: format!("Big {}", nonce),
+                        expr: format!("vsim-cmd @vs:{}@ big @ve:{}@", nonce, nonce),
+                        nonce,
+                        expected_code: Some(3),
+                        expectations: vec![],
+                        expect_match: false,
+                        cfg: TestCfg {
+                            output_stream: if script { None } else { Some(*g.pick(&[Stream::Stdout, Stream::Stderr, Stream::Combined])) },
+                            keep_crlf: if script { None } else if keep { Some(true) } else { None },
+                            strip_ansi: if strip { Some(true) } else { None },
+                            ..Default::default()
+                        },
+                    };
+                    // a small neighbour before and after: nothing may bleed over
+                    let mut tests = vec![];
+                    let mut small = |g: &mut G, sim: &mut SimScenario| {
+                        let n = g.nonce();
+                        sim.programs.insert(n.clone(), vec![Op::Out { fd: 1, data: format!("{}-small\n", &n[..6]).as_str().into() }, Op::Status { code: 0 }]);
+                        Test {
+                            title: format!("S {}", n),
+                            expr: format!("vsim-cmd @vs:{}@ small @ve:{}@", n, n),
+                            nonce: n,
+                            expected_code: Some(0),
+                            expectations: vec![],
+                            expect_match: false,
+                            cfg: TestCfg::default(),
+                        }
+                    };
+                    tests.push(small(&mut g, &mut sim));
+                    tests.push(t);
+                    tests.push(small(&mut g, &mut sim));
+                    let mut d = doc("big.md", Format::Md, tests);
+                    if script && keep {
+                        d.defaults.keep_crlf = Some(false);
+                    }
+                    out.push(Scenario {
+                        lane: format!("big/{}/{}/{}/{}", if script { "script" } else { "proc" }, uname, sname, if both { "both" } else { "one" }),
+                        tier: Tier::Lib,
+                        script_mode: script,
+                        docs: vec![d],
+                        cli: Cli::default(),
+                        sim,
+                        pretty: false,
+                        check: vec!["C13".into()],
+                    });
+                }
+            }
+        }
+    }
+    out
+}
+
 pub fn lane_early_exit(seed: u64) -> Vec<Scenario> {
     let mut out = vec![];
     let mut g = G::new(seed ^ 0xea71);
